@@ -143,6 +143,20 @@ def rotations(start, stop, step_deg):
     return out
 
 
+def _is_convex(poly):
+    n = len(poly)
+    sg = 0
+    for i in range(n):
+        a, b, c = poly[i - 2], poly[i - 1], poly[i]
+        cr = (b[0] - a[0]) * (c[1] - b[1]) - (b[1] - a[1]) * (c[0] - b[0])
+        if cr != 0:
+            if sg == 0:
+                sg = 1 if cr > 0 else -1
+            elif (cr > 0) != (sg > 0):
+                return False
+    return True
+
+
 def draw_lot(g, idx):
     kind = idx % 4
     size = float(g.uniform(40, 140))
@@ -154,6 +168,13 @@ def draw_lot(g, idx):
     else:
         origin = (0.0, 0.0) if g.random() < 0.6 else (float(round(g.uniform(0, 30), 1)), float(round(g.uniform(0, 30), 1)))
         poly = GLOT.convex(g, size, n=int(g.integers(3, 13)), origin=origin)
+        if kind == 3 and g.random() < 0.5:
+            # whole-number vertices (still convex? checked; otherwise keep the real-valued polygon)
+            from vf.oracle import polygon as _O
+
+            pr = [(float(round(p[0])), float(round(p[1]))) for p in poly]
+            if len(set(pr)) == len(pr) and _O.is_simple(pr) and _is_convex(pr):
+                poly = pr
     if g.random() < 0.3:
         poly = poly[::-1]
     s = float(round(g.uniform(5, 25), int(g.integers(0, 3))))
@@ -201,7 +222,13 @@ def run_case(g, idx, budget, tap, res):
     # remove_duplicates is quadratic in the field size: give it its own allowance
     n_est = area / s**2 + per / s + 10
     budget.arm(len(rots) * (per_rot + 6.0 * n_est**2) + 50.0 * n_est**2 + 5000)
-    shapes = rw.gen_shape([list(p) for p in poly], [[list(p) for p in z] for z in nogo] if nogo else None)
+    # whole-number outlines are passed as Python ints half of the time (that is what a JSON input file with "[[0, 0], [60, 0], ...]" gives)
+    as_int = all(float(c).is_integer() for p in poly for c in p) and (idx % 2 == 0)
+    case["outline_as_ints"] = as_int
+    conv = (lambda p: [int(p[0]), int(p[1])]) if as_int else (lambda p: list(p))
+    if as_int:
+        res["int_outlines"] = res.get("int_outlines", 0) + 1
+    shapes = rw.gen_shape([conv(p) for p in poly], [[list(p) for p in z] for z in nogo] if nogo else None)
     prop_bound, ng_zones = shapes
     tap.pop()
     try:
@@ -213,6 +240,16 @@ def run_case(g, idx, budget, tap, res):
         bad("does-not-terminate-within-step-budget", f"logical step budget exhausted at {e}")
         return out, case, False
     except Exception as e:  # noqa: BLE001
+        if use_perimeter and isinstance(e, TypeError) and "NoneType" in str(e):
+            # nothing fits under the perimeter rules (every edge shorter than the perimeter spacing, every interior point too close to
+            # the outline): verify that every tried rotation is empty, then count the lot as degenerate instead of judging it
+            budget.arm(float("inf"))
+            empty = all(len(rw.two_space_gen_bhc(prop_bound, s, s, rotate=r_, no_go=ng_zones, p_space=p_ratio * s, intersection_tolerance=1e-5)) == 0 for r_ in rots)
+            tap.pop()
+            if empty:
+                res["skipped_degenerate"] += 1
+                res["skipped_no_borehole_fits"] = res.get("skipped_no_borehole_fits", 0) + 1
+                return out, case, False
         bad(f"generation-raised:{type(e).__name__}", f"{type(e).__name__}: {str(e)[:150]}")
         return out, case, False
     finally:
@@ -259,9 +296,14 @@ def run_case(g, idx, budget, tap, res):
         # translation: rigid shift (random for real-valued lots, integer for integer lots)
         integer_lot = all(float(c).is_integer() for p in poly for c in p) and float(s).is_integer()
         dx, dy = (float(g.integers(1, 60)), float(g.integers(1, 60))) if integer_lot else (float(g.uniform(1, 60)), float(g.uniform(1, 60)))
-        if integer_lot or not is_rect:
+        whole_number_polygon = (not is_rect) and all(float(c).is_integer() for p in poly for c in p)
+        if whole_number_polygon:
+            # rows through whole-number vertices are exact ties of the row/vertex intersection logic; which side of the tie floating
+            # point lands on depends on the position, so the translation clause is not judged for these lots (counted)
+            res["translation_skipped_whole_number_polygon"] = res.get("translation_skipped_whole_number_polygon", 0) + 1
+        if (integer_lot or not is_rect) and not whole_number_polygon:
             poly2 = [(p[0] + dx, p[1] + dy) for p in poly]
-            sh2 = rw.gen_shape([list(p) for p in poly2], None)
+            sh2 = rw.gen_shape([conv(p) if integer_lot else list(p) for p in poly2], None)
             budget.arm(len(rots) * (per_rot + 6.0 * n_est**2) + 50.0 * n_est**2 + 5000)
             try:
                 f2, _ = rw.field_optimization_fr(s, step, sh2[0], ng_zones=None, rotate_start=lo, rotate_stop=hi)
@@ -379,6 +421,9 @@ def check(tier, seed):
         ok_mon = ok_mon and r["monitoring"]
         for k in ("skipped_degenerate", "translations", "rectangles", "rect_near_tie_skipped", "line_events", "gen_hits", "perimeter", "nogo"):
             rep.count(k, r[k])
+        rep.count("whole_number_outlines_passed_as_ints", r.get("int_outlines", 0))
+        rep.count("translation_clause_skipped_for_whole_number_polygons", r.get("translation_skipped_whole_number_polygon", 0))
+        rep.count("skipped_no_borehole_fits_under_perimeter_rules", r.get("skipped_no_borehole_fits", 0))
         rep.worst("largest_fraction_of_step_budget_used", r["steps_used_max_fraction"])
         if r["worst_spacing_ratio"] is not None:
             cur = rep.extra.get("smallest_nearest_pair_over_spacing")
